@@ -81,7 +81,7 @@ def one_run(ctx, p, decisions=None, rng=None, items=None, tag="random", p_comple
     case = {"program": p.to_json(), "choices": ctl.choice_log, "status": st}
     counts = {}
     for name, eh, ch, job in ctl.submissions:
-        if opted_in_cached(job):
+        if opted_in(job):
             counts[(name, eh, ch)] = counts.get((name, eh, ch), 0) + 1
     for k, n in counts.items():
         if n > 1:
